@@ -190,6 +190,11 @@ def run(ctx):
             if len(per) >= 2:
                 i, j = rng.choice(per, 2, replace=False)
                 U[i, j] = int(rng.integers(-2, 3))
+            # … and the NON-periodic cell vectors leaning over a periodic one (b' = b + k a, |k| up to 7): they only describe the box,
+            # the periodic lattice is the same
+            nonper = [i for i in range(3) if not pbc[i]]
+            if per and nonper:
+                U[int(rng.choice(nonper)), int(rng.choice(per))] = int(rng.integers(-7, 8))
             v2 = real_dim(pos, U @ cell, pbc, radii, thr)[0]
             # supercell along a periodic axis
             v3 = base
